@@ -373,6 +373,22 @@ class SymSeq:
         return f"SymSeq(len={self.length})"
 
 
+class SeqIter:
+    """A python iterator over a list / SymSeq: the sequence and the number of elements already consumed."""
+
+    def __init__(self, seq, pos=0):
+        self.seq, self.pos = seq, pos
+
+    def _iterable(self, ex):
+        c = as_const(self.pos) if is_z3(self.pos) else self.pos
+        if c == 0:
+            return ex.as_iterable(self.seq)
+        raise Unsupported("iteration over a partly consumed iterator")
+
+    def __repr__(self):
+        return f"SeqIter({self.seq!r}, pos={self.pos})"
+
+
 class Record:
     """An object with attributes (instance of a repo class, argparse namespace, ...)."""
 
